@@ -270,6 +270,11 @@ FAMILIES = {
 
 # fixed-size edge inputs (constant expressions at the limits, sizes near 2^64, ...)
 EDGES = [
+    # objects and types of size zero (GNU zero-length arrays, structs made of them) in every storage class and use
+    "void f(void){struct{char s[0];}x;}", "void f(void){int b[0];}", "int g(int*);int f(void){int b[0];return g(b);}", "struct{char s[0];}x;int y=sizeof x;",
+    "int a[0];int*p=a;", "void f(void){static int b[0];}", "void f(void){int b[0][3];int c[3][0];}", "struct z{int a[0];};struct z f(struct z v){return v;}",
+    "struct z{int a[0];};void f(void){struct z a,b;a=b;}", "struct z{int a[0];};void f(void){struct z a={};}", "union{int a[0];}u;", "void f(void){int a[0];a[0]=1;}",
+    "typedef int Z[0];Z z;void f(Z*p){(*p)[0]=1;}", "void f(void){char c[0]=\"\";}", "void f(int n){int a[n][0];}", "void f(void){struct{}*p;}",
     "static int x = 1/0;", "static int x = 1%0;", "static unsigned x = 1u/0u;", "static unsigned long x = 1ul%0ul;",
     "void f(int a){switch(a){case 1/0:;}}", "enum e {A = 1/0};", "int a[1/0];", "struct s {int x:1/0;};",
     "static int x = (-2147483647-1)/-1;", "static int x = (-2147483647-1)%-1;",
